@@ -1,11 +1,17 @@
 """C04 — completion of a tight program's theory has exactly its stable models."""
 from ..facts import AnalysisGap
-from .. import hq, sym
+from .. import comp, hq, leaves, sym
 from . import c11
+from .c01 import C
 
 EXPLANATION = (
     "TPL: the completion pipeline (completion, components, split, split_implication, heads, has_head_mismatches, atomic_formula_from) is evaluated "
-    "to terms and compared with Clark completion with inputs as defined in Fandinno-Hansen-Lierler-Lifschitz-Temple 2023, App. B: constraints are "
+    "symbolically and compared with Clark completion with inputs as defined in Fandinno-Hansen-Lierler-Lifschitz-Temple 2023, App. B.  The "
+    "comparison is on meaning, not spelling: collections are brought to comprehension form (rules/comp.py: a loop with push / insert, an iterator "
+    "chain with filter / map / filter_map / chain and an extracted helper are one list of (source, conditions, element) segments; the entry-API "
+    "match and `entry().or_default().push()` are one bucket update), split / split_implication are evaluated once per input shape (every Formula "
+    "constructor, every connective, every kind of head) and their outcomes compared as decision tables over the atomic conditions "
+    "(rules/leaves.py same_decision).  What is compared: constraints are "
     "kept under universal closure; a predicate of the theory without rule gets the empty definition (#false through disjoin of no bodies); "
     "definitions of input predicates are dropped; each remaining head p(V) gets forall V (p(V) <-> or_i exists U_i F_i) with U_i = free(F_i) - V. "
     "Refusals: a formula with free variables, a head that is not an atom / #false, a head argument that is not a variable (of any sort), repeated "
@@ -15,151 +21,327 @@ UNDECIDED = ["that Clark completion characterises the stable models of tight pro
              "sort-compatibility of differently sorted head variables across partial definitions beyond syntactic equality of the head atoms"]
 ASSUMPTIONS = ["tau* output (C01) is closed and uses program-wide head variables", "Formula::free_variables / quantify / universal_closure behave as their names say (C17 collectors)"]
 
-TH = ("param", "theory")
-COMP = ("try", ("call", "completion::components", (TH,)))
-
-
 def P(b, *path):
     return ("proj", b, tuple(path))
 
 
-DEF0, CONS = P(COMP, ("tuple", "0")), P(COMP, ("tuple", "1"))
-KEYS = ("each", ("call", "IndexMap::keys", (DEF0,)))
-NEWSET = ("call", "IndexSet::new", ())
-EXPL = ("phi", ("if", ("iflet", "AtomicFormula::Atom(_)", KEYS)),
-        (("then", ("upd", ("acc", NEWSET), "insert", (("call", "Atom::predicate", (P(KEYS, ("AtomicFormula::Atom", "0")),)),))), ("else", ("acc", NEWSET))))
-DEFS = ("upd", ("acc", DEF0), "insert", (("call", "completion::atomic_formula_from", (("each", ("call", "IndexSet::difference", (("call", "Theory::predicates", (TH,)), EXPL))),)),
-                                          ("call", "Vec::new", ())))
-ITEM = ("each", DEFS)
-HEAD, BODY = P(ITEM, ("tuple", "0")), P(ITEM, ("tuple", "1"))
-NEWMAP = ("call", "IndexMap::new", ())
-FINAL = ("phi", ("if", ("iflet", "AtomicFormula::Atom(_)", HEAD)), (
-    ("then", ("phi", ("if", ("op", "Not", ("call", "IndexSet::contains", (("param", "inputs"), ("call", "Atom::predicate", (P(HEAD, ("AtomicFormula::Atom", "0")),)))))),
-              (("then", ("upd", ("acc", NEWMAP), "insert", (HEAD, BODY))), ("else", ("acc", NEWMAP))))),
-    ("else", ("acc", NEWMAP))))
-G, A, FI = ("param", "g"), ("param", "a"), ("param", "f_i")
-VG = ("call", "AtomicFormula::variables", (G,))
-COMPLETED_CL = ("closure", ("g/a",), ("call", "Formula::quantify", (
-    ("ctor", "Formula::BinaryFormula", (("connective", ("ctor", "BinaryConnective::Equivalence", ())), ("lhs", ("ctor", "Formula::AtomicFormula", (("0", G),))),
-                                         ("rhs", ("call", "Formula::disjoin", (("call", "Iterator::map", (A, ("closure", ("f_i",), ("call", "Formula::quantify", (
-                                             FI, ("ctor", "Quantifier::Exists", ()), ("call", "IndexSet::difference", (("call", "Formula::free_variables", (FI,)), VG))))))),))))),
-    ("ctor", "Quantifier::Forall", ()), VG)))
-RESULT = ("ctor", "Option::Some", (("0", ("ctor", "Theory", (("formulas", ("upd", ("call", "Iterator::map", (CONS, ("fn", "Formula::universal_closure"))), "extend",
-                                                                           (("call", "Iterator::map", (FINAL, COMPLETED_CL)),))),))),))
-REF_COMPLETION = ("returns", ((((("call", "completion::has_head_mismatches", (DEFS,)), True),), ("ctor", "Option::None", ())), (("fallthrough",), RESULT)))
+def call(name, *args):
+    return ("call", name, tuple(args))
+
+
+def at(s):
+    return ("at", s)
+
+
+def seg(src, tests, elem):
+    """one loop over src adding elem under the tests"""
+    return ((src,), ((frozenset(tests), elem),))
+
+
+def coll(*segs):
+    return ("coll", tuple(segs))
+
+
+TH, INP = ("param", "$theory"), ("param", "$inputs")
+NONE = C("Option::None")
+COMP = ("try", call("completion::components", TH))
+D0, C0 = P(COMP, ("tuple", "0")), P(COMP, ("tuple", "1"))
+HEAD0, BODY0, ATOM0 = P(at(D0), ("tuple", "0")), P(at(D0), ("tuple", "1")), P(at(D0), ("tuple", "0"), ("AtomicFormula::Atom", "0"))
+EXPL = coll(seg(D0, [("is", HEAD0, "AtomicFormula::Atom")], call("Atom::predicate", ATOM0)))
+DIFF = call("IndexSet::difference", call("Theory::predicates", TH), EXPL)
+NEWHEAD = call("completion::atomic_formula_from", at(DIFF))
+DEFS = coll(seg(D0, [], at(D0)), seg(DIFF, [], ("list", (NEWHEAD, call("Vec::new")))))
+MISMATCH = call("completion::has_head_mismatches", DEFS)
+
+
+def completed(g, bodies):
+    return call("Formula::quantify", C("Formula::BinaryFormula", connective=C("BinaryConnective::Equivalence"), lhs=C("Formula::AtomicFormula", **{"0": g}),
+                                       rhs=call("Formula::disjoin", bodies)), C("Quantifier::Forall"), call("AtomicFormula::variables", g))
+
+
+def kept(head, atom):
+    return [("is", head, "AtomicFormula::Atom"), ("cond", call("IndexSet::contains", INP, call("Atom::predicate", atom)), False)]
+
+
+CLOSED_BODIES = coll(seg(BODY0, [], call("Formula::quantify", at(BODY0), C("Quantifier::Exists"),
+                                         call("IndexSet::difference", call("Formula::free_variables", at(BODY0)), call("AtomicFormula::variables", HEAD0)))))
+SEG_CONSTRAINTS = seg(C0, [], call("Formula::universal_closure", at(C0)))
+SEG_DEFINED = seg(D0, kept(HEAD0, ATOM0), completed(HEAD0, CLOSED_BODIES))
+SEG_UNDEFINED = seg(DIFF, kept(NEWHEAD, P(NEWHEAD, ("AtomicFormula::Atom", "0"))), completed(NEWHEAD, coll()))
+RESULT = C("Option::Some", **{"0": C("Theory", formulas=coll(SEG_CONSTRAINTS, SEG_DEFINED, SEG_UNDEFINED))})
+REF_COMPLETION = [((("cond", MISMATCH, True),), NONE), ((("cond", MISMATCH, False),), RESULT)]
+
+
+def canon_leaves(v, lift=True):
+    """decision leaves of a function's value, every term in canonical (comprehension) form"""
+    out = []
+    for ts, val in leaves.leaves(comp.case_of_case(leaves.lift(v)) if lift else v):
+        out.append((tuple(canon_test(t) for t in ts), comp.canon(val)))
+    return out
+
+
+def canon_test(t):
+    if t[0] == "cond":
+        return ("cond", comp.canon(t[1]), t[2])
+    if t[0] == "survived":
+        return canon_test(t[1])
+    if t[0] == "not":
+        return ("not", tuple(canon_test(u) for u in t[1]))
+    if t[0] == "or":
+        return ("or", tuple(tuple(canon_test(u) for u in alt) for alt in t[1]))
+    if t[0] in ("is", "eq"):
+        return (t[0], comp.canon(t[1]), t[2])
+    return t
+
+
+def _decide(t):
+    """truth of a fact about a literal constructor: True / False, None when it cannot be told"""
+    if t[0] == "is":
+        s_ = leaves.norm(t[1])
+        if isinstance(s_, tuple) and s_[:1] == ("ctor",):
+            return s_[1] == t[2]
+        return None
+    if t[0] == "not":
+        rs = [_decide(u) for u in t[1]]
+        if any(r is False for r in rs):
+            return True
+        if all(r is True for r in rs):
+            return False
+        return None
+    if t[0] == "or":
+        rs = [[_decide(u) for u in alt] for alt in t[1]]
+        if any(all(r is True for r in alt) for alt in rs):
+            return True
+        if all(any(r is False for r in alt) for alt in rs):
+            return False
+        return None
+    return None
+
+
+def find(t, pred):
+    return [x for x in sym.subterms(t) if pred(x)]
 
 
 def rule_completion(ctx):
     fx = ctx.facts
+    comp.use(fx)
     b = fx.fn("completion::completion")
     site = ctx.site(b)
-    v = sym.Eval(fx, inline_depth=0).function(b)
-    same = v == REF_COMPLETION
-    ctx.add("TPL", "completion:whole", same, site, "completion() evaluates to the reference term (App. B of the cited paper)" if same else
-            "completion() differs from the reference; see the piece-wise obligations", construct=None if same else sym.pretty(v, width=200)[:1500])
-    r = repr(v)
-    pieces = {
-        "explicit-predicates": (EXPL, "explicit predicates = predicates of the atoms that head a partial definition"),
-        "empty-definitions": (DEFS, "every predicate of the theory without a partial definition gets an empty definition p(V1..Vn) <- (no bodies)"),
-        "inputs-dropped": (FINAL, "definitions whose head predicate is an input are dropped, all others kept"),
-        "completed-definition": (COMPLETED_CL, "forall V (p(V) <-> or_i exists (free(F_i) - V) F_i) with V the variables of the head atom"),
-        "constraints-closed": (("call", "Iterator::map", (CONS, ("fn", "Formula::universal_closure"))), "constraints are kept under universal closure"),
-        "mismatch-refused": ((("call", "completion::has_head_mismatches", (DEFS,)), True), "head mismatches are tested on the full definition table (incl. the empty ones) before anything is built"),
-    }
-    for k, (t, text) in pieces.items():
-        ctx.add("TPL", "completion:" + k, repr(t) in r, site, text)
+    v = sym.Eval(fx, inline_depth=0).function(b, [TH, INP])
+    try:
+        lv = canon_leaves(v, lift=False)     # the exits of completion() are plain early returns; its accumulators must stay whole
+        same, wit = leaves.same_decision(lv, REF_COMPLETION)
+    except (OverflowError, comp.NotAComprehension) as e:
+        raise AnalysisGap("completion(): %s" % e)
+    ctx.add("TPL", "completion:whole", same, site, "completion() computes the reference (App. B of the cited paper): refusal on head mismatches, else constraints under universal closure, then the "
+            "completed definitions of the non-input predicates with a rule, then of those without" if same else "completion() differs from the reference; see the piece-wise obligations",
+            construct=None if same else sym.pretty(wit, width=200)[:1500])
+    # the pieces, for a report that says which part changed
+    mm = find(("x", tuple(t for ts, _ in lv for t in ts)), lambda x: isinstance(x, tuple) and x[:2] == ("call", "completion::has_head_mismatches") and len(x) == 3)
+    table = mm[0][2][0] if mm and len(mm[0][2]) == 1 else None
+    refused = [val for ts, val in lv if any(t[0] == "cond" and t[2] is True and t[1][:2] == ("call", "completion::has_head_mismatches") for t in ts)]
+    ctx.add("TPL", "completion:mismatch-refused", len(set(map(repr, mm))) == 1 and refused == [NONE] and all(any(t[0] == "cond" and t[1] == mm[0] for t in ts) for ts, _ in lv), site,
+            "head mismatches are tested before anything is built, and refuse")
+    ctx.add("TPL", "completion:mismatch-table", table == DEFS, site, "head mismatches are tested on the full definition table: the partial definitions plus an empty definition "
+            "p(V1..Vn) <- (no bodies) for every predicate of the theory that heads none")
+    diffs = find(table, lambda x: isinstance(x, tuple) and x[:2] == ("call", "IndexSet::difference")) if table else []
+    ctx.add("TPL", "completion:explicit-predicates", bool(diffs) and all(d == DIFF for d in diffs), site, "the predicates without a definition are those of the theory minus the predicates of the atoms heading a partial definition")
+    ctx.add("TPL", "completion:empty-definitions", bool(table) and table[:1] == ("coll",) and len(table[1]) == 2 and table[1][1] == DEFS[1][1], site,
+            "every such predicate gets the head atomic_formula_from(p) with no bodies")
+    res = [val for ts, val in lv if val != NONE]
+    segs = None
+    if len(res) == 1 and res[0][:2] == ("ctor", "Option::Some"):
+        th = dict(res[0][2]).get("0")
+        fm = dict(th[2]).get("formulas") if isinstance(th, tuple) and th[:2] == ("ctor", "Theory") else None
+        if isinstance(fm, tuple) and fm[:1] == ("coll",):
+            segs = fm[1]
+    ctx.add("TPL", "completion:constraints-closed", bool(segs) and segs[0] == SEG_CONSTRAINTS and sum(1 for s_ in segs if s_[0] == (C0,)) == 1, site, "every constraint is kept, under universal closure, first")
+    dseg = [s_ for s_ in (segs or ()) if s_[0] in ((D0,), (DIFF,))]
+    ctx.add("TPL", "completion:inputs-dropped", len(dseg) == 2 and [[a_[0] for a_ in s_[1]] for s_ in dseg] == [[SEG_DEFINED[1][0][0]], [SEG_UNDEFINED[1][0][0]]], site,
+            "a definition is completed iff its head is an atom whose predicate is not an input - for the defined and for the undefined predicates alike")
+    ctx.add("TPL", "completion:completed-definition", len(dseg) == 2 and [[a_[1] for a_ in s_[1]] for s_ in dseg] == [[SEG_DEFINED[1][0][1]], [SEG_UNDEFINED[1][0][1]]], site,
+            "forall V (p(V) <-> or_i exists (free(F_i) - V) F_i) with V the variables of the head atom; no bodies give the empty disjunction")
+    ctx.add("TPL", "completion:nothing-else", segs is not None and len(segs) == 3, site, "the result holds nothing but the closed constraints and the completed definitions")
     dj = fx.fn("sigma_0::Formula::disjoin")
     vd = sym.Eval(fx, inline_depth=0).function(dj)
     ok = vd[:2] == ("call", "Option::unwrap_or") and vd[2][1] == ("ctor", "Formula::AtomicFormula", (("0", ("ctor", "AtomicFormula::Falsity", ())),)) and "BinaryConnective::Disjunction" in repr(vd) and "Iterator::reduce" in repr(vd)
     ctx.add("TPL", "disjoin", ok, ctx.site(dj), "disjoin of no formulas is #false, otherwise a left-nested disjunction", construct=vd)
     q = fx.fn("sigma_0::Formula::quantify")
-    vq = sym.Eval(fx, inline_depth=0).function(q)
-    refq = ("if", ("call", "Vec::is_empty", (("param", "variables"),)), ("param", "self"),
-            ("ctor", "Formula::QuantifiedFormula", (("formula", ("param", "self")), ("quantification", ("ctor", "Quantification", (("quantifier", ("param", "quantifier")), ("variables", ("param", "variables"))))))))
-    ctx.add("TPL", "quantify", vq == refq, ctx.site(q), "quantify adds no quantifier for an empty variable list, else Q V self", construct=vq)
+    SELF, QU, VS = ("param", "$self"), ("param", "$q"), ("param", "$vs")
+    lq = canon_leaves(sym.Eval(fx, inline_depth=0).function(q, [SELF, QU, VS]))
+    refq = [((("cond", call("Vec::is_empty", VS), True),), SELF),
+            ((("cond", call("Vec::is_empty", VS), False),), C("Formula::QuantifiedFormula", formula=SELF, quantification=C("Quantification", quantifier=QU, variables=VS)))]
+    ctx.add("TPL", "quantify", leaves.same_decision(lq, refq)[0], ctx.site(q), "quantify adds no quantifier for an empty variable list, else Q V self", construct=lq)
     uc = fx.fn("sigma_0::Formula::universal_closure")
-    vu = sym.Eval(fx, inline_depth=0).function(uc)
-    ctx.add("TPL", "universal_closure", vu == ("call", "Formula::quantify", (("param", "self"), ("ctor", "Quantifier::Forall", ()), ("call", "Formula::free_variables", (("param", "self"),)))),
+    vu = comp.canon(sym.Eval(fx, inline_depth=0).function(uc, [SELF]))
+    ctx.add("TPL", "universal_closure", vu == call("Formula::quantify", SELF, C("Quantifier::Forall"), call("Formula::free_variables", SELF)),
             ctx.site(uc), "universal_closure = forall free(self) self", construct=vu)
     af = fx.fn("completion::atomic_formula_from")
-    va = sym.Eval(fx, inline_depth=0).function(af)
-    ok = va[:2] == ("ctor", "AtomicFormula::Atom") and dict(va[2][0][1][2]).get("predicate_symbol") == ("place", "predicate.symbol") and "('place', 'predicate.arity')" in repr(va) \
+    PR = ("param", "$p")
+    va = sym.Eval(fx, inline_depth=0).function(af, [PR])
+    ok = va[:2] == ("ctor", "AtomicFormula::Atom") and dict(va[2][0][1][2]).get("predicate_symbol") == ("place", "$p.symbol") and "('place', '$p.arity')" in repr(va) \
         and "tau_star::choose_fresh_variable_names" in repr(va) and "GeneralTerm::Variable" in repr(va)
     ctx.add("TPL", "empty-head", ok, ctx.site(af), "the head of an empty definition is p(V1..Vn): n = arity distinct general variables (closed context: the atom has no other variable)", construct=va)
 
 
-S = ("call", "Unbox::unbox", (("param", "formula"),))
-UB = "UnboxedFormula::BinaryFormula"
+FORMULA_CTORS = {"AtomicFormula": lambda: C("Formula::AtomicFormula", **{"0": ("param", "$af")}),
+                 "UnaryFormula": lambda: C("Formula::UnaryFormula", connective=("param", "$uc"), formula=("param", "$uf")),
+                 "BinaryFormula": None,
+                 "QuantifiedFormula": None}
+S0 = "syntax_tree::fol::sigma_0::"
+
+
+def quantified(q):
+    return C("Formula::QuantifiedFormula", quantification=C("Quantification", quantifier=C("Quantifier::" + q), variables=("param", "$vs")), formula=("param", "$body"))
+
+
+def binary(c, lhs, rhs):
+    return C("Formula::BinaryFormula", connective=C("BinaryConnective::" + c), lhs=lhs, rhs=rhs)
+
+
+def run_case(fx, fn, arg):
+    b = fx.fn("completion::" + fn)
+    return canon_leaves(sym.Eval(fx, inline_depth=0).function(b, [arg]))
 
 
 def rule_split(ctx):
     fx = ctx.facts
+    comp.use(fx)
+    if set(fx.variants(S0 + "Formula")) != set(FORMULA_CTORS):
+        raise AnalysisGap("Formula has constructors the case analysis does not know: %s" % sorted(fx.variants(S0 + "Formula")))
     sp = fx.fn("completion::split")
-    v = sym.Eval(fx, inline_depth=0).function(sp)
-    F = ("param", "formula")
-    ref = ("returns", ((((("op", "Not", ("call", "IndexSet::is_empty", (("call", "Formula::free_variables", (F,)),))), True),), ("ctor", "Option::None", ())),
-                       (("fallthrough",), ("match", F, (
-                           ("Formula::QuantifiedFormula{quantification: Quantification{quantifier: Quantifier::Forall}}", ("call", "completion::split_implication", (("proj", F, (("Formula::QuantifiedFormula", "formula"),)),))),
-                           ("_", ("call", "completion::split_implication", (F,))))))))
-    ctx.add("TPL", "split", v == ref, ctx.site(sp), "a formula with free variables is refused first; one universal prefix is stripped; the rest goes to split_implication", construct=v)
+    site = ctx.site(sp)
+    # split: one case per shape of the input
+    shapes = {"AtomicFormula": FORMULA_CTORS["AtomicFormula"](), "UnaryFormula": FORMULA_CTORS["UnaryFormula"](), "BinaryFormula": binary("Implication", ("param", "$l"), ("param", "$r"))}
+    for q in fx.variants(S0 + "Quantifier"):
+        shapes["QuantifiedFormula:" + q] = quantified(q)
+    for name, whole in sorted(shapes.items()):
+        closed = call("IndexSet::is_empty", call("Formula::free_variables", whole))
+        inner = ("param", "$body") if name == "QuantifiedFormula:Forall" else whole
+        ref = [((("cond", closed, False),), NONE), ((("cond", closed, True),), call("completion::split_implication", inner))]
+        same, wit = leaves.same_decision(run_case(fx, "split", whole), ref)
+        ctx.add("TPL", "split:" + name, same, site, "a formula with free variables is refused; otherwise %s goes to split_implication" %
+                ("the body of the universal quantifier" if inner is not whole else "the formula itself"), construct=wit)
+    # split_implication: every shape of formula, and for the two implications every kind of head
     si = fx.fn("completion::split_implication")
-    v = sym.Eval(fx, inline_depth=0).function(si)
     site = ctx.site(si)
-    ok = v[0] == "match" and v[1] == S
-    arms = {a[0]: a[-1] for a in v[2]} if ok else {}
-    key = "UnboxedFormula::BinaryFormula{connective: BinaryConnective::Implication} | UnboxedFormula::BinaryFormula{connective: BinaryConnective::ReverseImplication}"
-    none = ("ctor", "Option::None", ())
-    ctx.add("TPL", "split:only-implications", set(arms) == {key, "_"} and arms.get("_") == none, site, "only F -> G and G <- F are split; everything else is refused")
-    inner = arms.get(key)
-    # head = rhs of ->, lhs of <-; body the other side
-    Ghead = ("orbind", ((UB + "{connective: BinaryConnective::Implication}", ("proj", S, ((UB, "rhs"),))), (UB + "{connective: BinaryConnective::ReverseImplication}", ("proj", S, ((UB, "lhs"),)))))
-    Fbody = ("orbind", ((UB + "{connective: BinaryConnective::Implication}", ("proj", S, ((UB, "lhs"),))), (UB + "{connective: BinaryConnective::ReverseImplication}", ("proj", S, ((UB, "rhs"),)))))
-    ok = inner is not None and inner[0] == "match" and inner[1] == Ghead
-    ctx.add("TPL", "split:head-side", ok, site, "the head is the consequent of -> and the left side of <-", construct=inner[1] if inner else None)
-    ia = {a[0]: a[-1] for a in inner[2]} if ok else {}
-    ctx.add("TPL", "split:constraint", ia.get("Formula::AtomicFormula(AtomicFormula::Falsity)") == ("ctor", "Option::Some", (("0", ("ctor", "Component::Constraint", (("0", ("param", "formula")),))),)),
-            site, "head #false: the whole formula is a constraint")
-    ctx.add("TPL", "split:other-heads-refused", ia.get("_") == none and set(ia) == {"Formula::AtomicFormula(AtomicFormula::Falsity)", "Formula::AtomicFormula(AtomicFormula::Atom(_))", "_"}, site,
-            "any head that is neither an atom nor #false is refused")
-    at = ia.get("Formula::AtomicFormula(AtomicFormula::Atom(_))")
-    ATOM = ("proj", Ghead, (("Formula::AtomicFormula", "0"), ("AtomicFormula::Atom", "0")))
+    F = ("param", "$f")
+    ATOM = ("param", "$atom")
+    heads = {"Falsity": C("Formula::AtomicFormula", **{"0": C("AtomicFormula::Falsity")}), "Truth": C("Formula::AtomicFormula", **{"0": C("AtomicFormula::Truth")}),
+             "Comparison": C("Formula::AtomicFormula", **{"0": C("AtomicFormula::Comparison", **{"0": ("param", "$c")})}),
+             "Atom": C("Formula::AtomicFormula", **{"0": C("AtomicFormula::Atom", **{"0": ATOM})}),
+             "UnaryFormula": FORMULA_CTORS["UnaryFormula"](), "BinaryFormula": binary("Conjunction", ("param", "$l"), ("param", "$r")), "QuantifiedFormula": quantified("Forall")}
+    if set(fx.variants(S0 + "AtomicFormula")) != {"Falsity", "Truth", "Comparison", "Atom"}:
+        raise AnalysisGap("AtomicFormula has constructors the case analysis does not know")
+    vars_seen = []
+    for conn in fx.variants(S0 + "BinaryConnective"):
+        for hk, hv in sorted(heads.items()):
+            whole = binary(conn, F, hv) if conn != "ReverseImplication" else binary(conn, hv, F)
+            lv = run_case(fx, "split_implication", whole)
+            key = "split_implication:%s:%s" % (conn, hk)
+            if conn not in ("Implication", "ReverseImplication"):
+                if hk in ("Atom", "Falsity"):
+                    ctx.add("TPL", key, [v for _, v in lv] == [NONE], site, "%s is not split: refused" % conn, construct=lv)
+                continue
+            if hk == "Falsity":
+                ctx.add("TPL", key, lv == [((), C("Option::Some", **{"0": C("Component::Constraint", **{"0": whole})}))], site, "head #false: the whole formula is a constraint", construct=lv)
+            elif hk != "Atom":
+                ctx.add("TPL", key, [v for _, v in lv] == [NONE], site, "a head that is neither an atom nor #false is refused", construct=lv)
+            else:
+                # the variables of the head atom, as the code collects them: one collection, used by both tests.  Two spellings are known:
+                # `v.contains(&None) | !v.all_unique()` on the Option-valued entries, and `collect::<Option<Vec<_>>>()` (None as soon as
+                # one entry is None) followed by `all_unique` on the unwrapped entries
+                subs = [x for ts, _ in lv for t in ts for x in sym.subterms(t) if isinstance(x, tuple)]
+                cs1 = {x[2][0] for x in subs if x[:2] in (("call", "Itertools::contains"), ("call", "Itertools::all_unique")) and len(x) == 3 and x[2][0][:1] == ("coll",)}
+                cs2 = {x[1] for x in subs if x[:1] == ("is",) and len(x) == 3 and x[2] == "Option::Some" and isinstance(x[1], tuple) and x[1][:1] == ("coll",)}
+                if len(cs1) + len(cs2) != 1:
+                    ctx.add("TPL", key, False, site, "the head's arguments are collected once and tested for non-variables and for repetitions", construct=lv)
+                    continue
+                first_spelling = bool(cs1)
+                VARS = (cs1 or cs2).pop()
+                vars_seen.append(VARS)
+                if first_spelling:
+                    A, U = ("cond", call("Itertools::contains", VARS, NONE), True), call("Itertools::all_unique", VARS)
+                    notA = ("cond", A[1], False)
+                else:
+                    notA, U = ("is", VARS, "Option::Some"), call("Itertools::all_unique", P(VARS, ("Option::Some", "0")))
+                    A = ("not", (notA,))
+                some = C("Option::Some", **{"0": C("Component::PartialDefinition", a=C("AtomicFormula::Atom", **{"0": ATOM}), f=F)})
+                ref = [((A,), NONE), ((notA, ("cond", U, False)), NONE), ((notA, ("cond", U, True)), some)]
+                same, wit = leaves.same_decision(lv, ref)
+                ctx.add("TPL", key, same, site, "head atom: refused if an argument is not a variable or a variable repeats; otherwise partial definition (head atom, body = the other side)", construct=wit)
+    for name, whole in (("AtomicFormula", FORMULA_CTORS["AtomicFormula"]()), ("UnaryFormula", FORMULA_CTORS["UnaryFormula"]()), ("QuantifiedFormula", quantified("Exists"))):
+        lv = run_case(fx, "split_implication", whole)
+        ctx.add("TPL", "split_implication:" + name, [v for _, v in lv] == [NONE], site, "only F -> G and G <- F are split; everything else is refused", construct=lv)
+    # what the collected head variables are: per kind of argument
+    TERMS = ("fieldof", ATOM, "terms")
+    ok_src = bool(vars_seen) and all(v_ == vars_seen[0] for v_ in vars_seen) and vars_seen[0][:1] == ("coll",) and len(vars_seen[0][1]) == 1 and vars_seen[0][1][0][0] == (TERMS,)
+    ctx.add("TPL", "split:head-variables:source", ok_src, site, "one entry per argument of the head atom, none skipped")
+    if ok_src:
+        alts = vars_seen[0][1][0][1]
+        G = S0 + "GeneralTerm"
+        kinds = {"GeneralTerm::Variable": (C("GeneralTerm::Variable", **{"0": ("param", "$v")}), "General"),
+                 "IntegerTerm::Variable": (C("GeneralTerm::IntegerTerm", **{"0": C("IntegerTerm::Variable", **{"0": ("param", "$v")})}), "Integer"),
+                 "SymbolicTerm::Variable": (C("GeneralTerm::SymbolicTerm", **{"0": C("SymbolicTerm::Variable", **{"0": ("param", "$v")})}), "Symbol")}
+        others = {"GeneralTerm::Infimum": C("GeneralTerm::Infimum"), "GeneralTerm::Supremum": C("GeneralTerm::Supremum"),
+                  "GeneralTerm::FunctionConstant": C("GeneralTerm::FunctionConstant", **{"0": ("param", "$c")}),
+                  "IntegerTerm::Numeral": C("GeneralTerm::IntegerTerm", **{"0": C("IntegerTerm::Numeral", **{"0": ("param", "$n")})}),
+                  "IntegerTerm::FunctionConstant": C("GeneralTerm::IntegerTerm", **{"0": C("IntegerTerm::FunctionConstant", **{"0": ("param", "$c")})}),
+                  "IntegerTerm::UnaryOperation": C("GeneralTerm::IntegerTerm", **{"0": C("IntegerTerm::UnaryOperation", op=("param", "$o"), arg=("param", "$x"))}),
+                  "IntegerTerm::BinaryOperation": C("GeneralTerm::IntegerTerm", **{"0": C("IntegerTerm::BinaryOperation", op=("param", "$o"), lhs=("param", "$x"), rhs=("param", "$y"))}),
+                  "SymbolicTerm::Symbol": C("GeneralTerm::SymbolicTerm", **{"0": C("SymbolicTerm::Symbol", **{"0": ("param", "$s")})}),
+                  "SymbolicTerm::FunctionConstant": C("GeneralTerm::SymbolicTerm", **{"0": C("SymbolicTerm::FunctionConstant", **{"0": ("param", "$c")})})}
+        known = {"GeneralTerm": {"Infimum", "Supremum", "FunctionConstant", "Variable", "IntegerTerm", "SymbolicTerm"},
+                 "IntegerTerm": {"Numeral", "FunctionConstant", "Variable", "UnaryOperation", "BinaryOperation"}, "SymbolicTerm": {"Symbol", "FunctionConstant", "Variable"}}
+        for ty, vs in known.items():
+            if set(fx.variants(S0 + ty)) != vs:
+                raise AnalysisGap("%s has constructors the case analysis does not know" % ty)
 
-    def var(ctor_path, sort):
-        return ("ctor", "Option::Some", (("0", ("ctor", "Variable", (("name", ("proj", ("param", "t"), ctor_path)), ("sort", ("ctor", "Sort::" + sort, ()))))),))
-
-    VMAP = ("call", "Iterator::map", (("fieldof", ATOM, "terms"), ("closure", ("t",), ("match", ("param", "t"), (
-        ("GeneralTerm::Variable(_)", var((("GeneralTerm::Variable", "0"),), "General")),
-        ("GeneralTerm::IntegerTerm(IntegerTerm::Variable(_))", var((("GeneralTerm::IntegerTerm", "0"), ("IntegerTerm::Variable", "0")), "Integer")),
-        ("GeneralTerm::SymbolicTerm(SymbolicTerm::Variable(_))", var((("GeneralTerm::SymbolicTerm", "0"), ("SymbolicTerm::Variable", "0")), "Symbol")),
-        ("_", none))))))
-    refat = ("if", ("bin", "BitOr", ("call", "Itertools::contains", (VMAP, none)), ("op", "Not", ("call", "Itertools::all_unique", (VMAP,)))), none,
-             ("ctor", "Option::Some", (("0", ("ctor", "Component::PartialDefinition", (("a", ("ctor", "AtomicFormula::Atom", (("0", ATOM),))), ("f", Fbody)))),)))
-    ctx.add("TPL", "split:definition", at == refat, site,
-            "head atom: refused if an argument is not a variable or a variable repeats (name and sort); otherwise partial definition (head atom, body = the other side)", construct=at)
+        def on(shape):
+            # what the collection holds for an argument of that shape: the alternatives whose conditions hold for it
+            out = []
+            for ts, e in alts:
+                rs = [_decide(leaves.replace(t, {at(TERMS): shape})) for t in ts]
+                if any(r is False for r in rs):
+                    continue
+                if any(r is None for r in rs):
+                    return "undecided"
+                for lts, lv in leaves.leaves(comp.case_of_case(leaves.lift(leaves.replace(e, {at(TERMS): shape})))):
+                    out.append((tuple(lts), comp.canon(lv)))
+            return out
+        for k_, (shape, sort) in sorted(kinds.items()):
+            want = C("Option::Some", **{"0": C("Variable", _name=("param", "$v"), sort=C("Sort::" + sort))})
+            ctx.add("TPL", "split:head-variables:" + k_, on(shape) == [((), want)], site, "a %s variable argument counts as the variable (name, %s)" % (sort.lower(), sort), construct=on(shape))
+        bad = {k_: on(shape) for k_, shape in others.items() if on(shape) != [((), NONE)]}
+        ctx.add("TPL", "split:head-variables:non-variables", not bad, site, "every other kind of argument makes the head unusable (None)", construct=bad or None)
     # components / heads / mismatch
     co = fx.fn("completion::components")
-    v = sym.Eval(fx, inline_depth=0).function(co)
-    SPL = ("try", ("call", "completion::split", (("each", ("place", "theory.formulas")),)))
-    r = repr(v)
-    okc = v[:2] == ("ctor", "Option::Some") and repr(("upd", ("acc", ("call", "Vec::new", ())), "push", (("proj", SPL, (("Component::Constraint", "0"),)),))) in r \
-        and repr(("proj", SPL, (("Component::PartialDefinition", "a"),))) in r and "'entry'" in r and "OccupiedEntry::get_mut" in r and "VacantEntry::insert" in r \
-        and r.count(repr(("proj", SPL, (("Component::PartialDefinition", "f"),)))) == 2
-    ctx.add("TPL", "components", okc, ctx.site(co), "every formula is split (`?` propagates a refusal); constraints are collected; bodies are grouped per head atom, appended in order", construct=v)
+    v = comp.canon(sym.Eval(fx, inline_depth=0).function(co, [TH]))
+    FORMS = ("fieldof", TH, "formulas")
+    SPLIT = ("try", call("completion::split", at(FORMS)))
+    ref = C("Option::Some", **{"0": ("list", (
+        coll(seg(FORMS, [("is", SPLIT, "Component::PartialDefinition")], ("bucket", P(SPLIT, ("Component::PartialDefinition", "a")), "push", (P(SPLIT, ("Component::PartialDefinition", "f")),)))),
+        coll(seg(FORMS, [("is", SPLIT, "Component::Constraint")], P(SPLIT, ("Component::Constraint", "0"))))))})
+    ctx.add("TPL", "components", v == ref, ctx.site(co), "every formula is split (`?` propagates a refusal); constraints are collected; bodies are grouped per head atom, appended in order", construct=v)
     hm = fx.fn("completion::has_head_mismatches")
-    v = sym.Eval(fx, inline_depth=0).function(hm)
-    ref = ("returns", ((((("op", "Not", ("call", "Itertools::all_equal", (("proj", ("each", ("call", "completion::heads", (("param", "definitions"),))), (("tuple", "1"),)),))), True),), ("lit", True)),
-                       (("fallthrough",), ("lit", False))))
+    DP = ("param", "$definitions")
+    v = leaves.canon_first(sym.Eval(fx, inline_depth=0).function(hm, [DP]))
+    HS = call("completion::heads", DP)
+    ref = ("first", (HS,), frozenset({("cond", call("Itertools::all_equal", P(at(HS), ("tuple", "1"))), False)}), ("lit", True), ("lit", False))
     ctx.add("TPL", "head-mismatch", v == ref, ctx.site(hm), "mismatch iff for some predicate the head atoms of its partial definitions are not all equal", construct=v)
     hd = fx.fn("completion::heads")
-    v = sym.Eval(fx, inline_depth=0).function(hd)
-    r = repr(v)
-    ctx.add("TPL", "heads-by-predicate", "'entry'" in r and "Atom::predicate" in r and "IndexMap::keys" in r, ctx.site(hd), "head atoms are grouped by (symbol, arity)")
+    v = comp.canon(sym.Eval(fx, inline_depth=0).function(hd, [DP]))
+    K = P(at(DP), ("tuple", "0"))
+    ref = coll(seg(DP, [("is", K, "AtomicFormula::Atom")], ("bucket", call("Atom::predicate", P(at(DP), ("tuple", "0"), ("AtomicFormula::Atom", "0"))), "push", (K,))))
+    ctx.add("TPL", "heads-by-predicate", v == ref, ctx.site(hd), "head atoms are grouped by the predicate (symbol, arity) of the atom", construct=v)
     # the CLI and the task call completion and propagate refusal
     n = 0
     for body in fx.body_list:
         for c in hq.calls(body["body"], "Completion::completion"):
             n += 1
     ctx.floor("TPL", "completion_call_sites", n, 2)
+
+
 
 
 def rule_tightness(ctx):
